@@ -8,7 +8,8 @@ androguard.core.analysis.analysis.Analysis. Oracle (validity predicate against v
   * get_instructions() of a block is exactly the (identical) instruction objects at offsets in [start, end) and the
     concatenation over the blocks is the method's instruction list (every instruction once, in order);
   * every required leader - branch target, switch target, instruction after goto/if/switch/return/throw, try start,
-    handler address - is the start of some block;
+    handler address - is the start of some block (a branch / switch-case target outside the method - cfggen makes
+    those too - requires no leader; the instruction after the branching instruction still does);
   * no instruction other than the last of a block is a goto/if/switch/return/throw.
 The same predicate runs over the methods of the shipped DEX/APK files (model from an own reader + own sweep).
 """
